@@ -23,6 +23,7 @@ def run(rep, tier, seed):
                      'signature-derived specification designates, the write set must be exactly the designated cells, reads must stay '
                      'inside the designated cells, and every kernel precondition must hold at its call site')
     nfun = 0
+    nalias = 0
     for cfg in ('avx2', 'avx512'):
         mod = front.module(cfg)
         names = mod.find_re(PAT)
@@ -32,6 +33,15 @@ def run(rep, tier, seed):
         for n in names:
             nfun += 1
             wrapcheck.check_overload(rep, mod, cfg, n, specfn)
+            try:
+                hyps = base_spec.inplace_hyps(mod.dem[n], harness.describe(mod, n))
+            except Incomplete:
+                hyps = []
+            for h in hyps:
+                nalias += 1
+                wrapcheck.check_overload(rep, mod, cfg, n, specfn, alias=h, sample=False)
+    rep.cov['in_place_hypotheses'] = nalias
+    rep.floor('same-shape in-place hypotheses', nalias, 76)
     # parallel copy / zero helpers: exactly `size` elements for every size and thread-count argument (bounded tier;
     # sequential-semantics IR here, the outlined OpenMP IR is analysed under C12)
     from ..interp import Incomplete as _Inc, Sink as _Sink
